@@ -31,14 +31,14 @@ V6_FUNCS = ["V6_api.add_import_func.*", "V6_api.fn:Module::add_import_func_with_
             "V6_api.delete_func.*", "V6_api.fn:Module::delete_func", "V6_api.Functions.*", "V6_api.fn:Functions::*", "V6_api.fn:Function::*",
             "V6_api.ModuleImports.*", "V6_api.fn:ModuleImports::*", "V6_api.fn:Module::add_import", "V6_api.fn:LocalFunction::new", "V6_api.LocalFunction.*",
             "V6_api.convert_import_fn_to_local.*", "V6_api.fn:Module::convert_import_fn_to_local",
-            "V6_api.convert_local_fn_to_import.*", "V6_api.fn:Module::convert_local_fn_to_import_with_tag", "V6_api.kf.convert_local_fn_to_import.keeps_import_order",
+            "V6_api.convert_local_fn_to_import.*", "V6_api.fn:Module::convert_local_fn_to_import_with_tag", "V6_api.convert_local_fn_to_import_untagged.*", "V6_api.fn:Module::convert_local_fn_to_import", "V6_api.kf.convert_local_fn_to_import.keeps_import_order",
             "V2_reindex.lemma.import_order_survives_reorganisation", "V2_reindex.fn:lemma_import_order_preserved", "V2_reindex.fn:lemma_origin_monotone_on_imports"]
 V6_GLOBALS = ["V6b_api2.add_global.*", "V6b_api2.add_imported_global.*", "V6b_api2.delete_global.*", "V6b_api2.mod_global_init_expr.*", "V6b_api2.ModuleGlobals.*",
               "V6b_api2.Global.*", "V6b_api2.ModuleIterator.add_global.*", "V6b_api2.fn:Module::add_global_internal", "V6b_api2.fn:Module::add_global_with_tag",
-              "V6b_api2.fn:Module::add_imported_global_with_tag", "V6b_api2.fn:Module::delete_global", "V6b_api2.fn:Module::mod_global_init_expr",
+              "V6b_api2.fn:Module::add_imported_global_with_tag", "V6b_api2.add_imported_global_untagged.*", "V6b_api2.fn:Module::add_imported_global", "V6b_api2.fn:Module::delete_global", "V6b_api2.fn:Module::mod_global_init_expr",
               "V6b_api2.fn:ModuleGlobals::*", "V6b_api2.fn:Global::*", "V6b_api2.fn:ImportedGlobal::new", "V6b_api2.fn:ModuleIterator as IteratingInstrumenter::add_global"]
 V6_MEMS = ["V6b_api2.add_local_memory.*", "V6b_api2.add_import_memory.*", "V6b_api2.delete_memory.*", "V6b_api2.Memories.*", "V6b_api2.fn:Memories::*", "V6b_api2.fn:Memory::delete",
-           "V6b_api2.fn:Module::add_local_memory_with_tag", "V6b_api2.fn:Module::add_import_memory_with_tag", "V6b_api2.fn:Module::delete_memory"]
+           "V6b_api2.fn:Module::add_local_memory_with_tag", "V6b_api2.fn:Module::add_import_memory_with_tag", "V6b_api2.add_local_memory_untagged.*", "V6b_api2.fn:Module::add_local_memory", "V6b_api2.add_import_memory_untagged.*", "V6b_api2.fn:Module::add_import_memory", "V6b_api2.fn:Module::delete_memory"]
 V6_DELETES = ["V6_api.delete_func.*", "V6_api.fn:Module::delete_func", "V6_api.Functions.delete.*", "V6_api.fn:Functions::delete", "V6_api.ModuleImports.delete.*", "V6_api.fn:ModuleImports::delete",
               "V6b_api2.delete_global.*", "V6b_api2.fn:Module::delete_global", "V6b_api2.ModuleGlobals.delete.*", "V6b_api2.fn:ModuleGlobals::delete",
               "V6b_api2.delete_memory.*", "V6b_api2.fn:Module::delete_memory", "V6b_api2.Memories.delete.*", "V6b_api2.fn:Memories::delete",
@@ -246,7 +246,7 @@ PROPS = {
     "C11": {
         "title": "Converting a local function to an import redirects all its uses",
         "units": ["V6_api", "V2_reindex", "V3_remap", "V12_sections", "V6b_api2"],
-        "obligations": ["V6_api.convert_local_fn_to_import.*", "V6_api.fn:Module::convert_local_fn_to_import_with_tag", "V6_api.kf.convert_local_fn_to_import.*",
+        "obligations": ["V6_api.convert_local_fn_to_import.*", "V6_api.fn:Module::convert_local_fn_to_import_with_tag", "V6_api.convert_local_fn_to_import_untagged.*", "V6_api.fn:Module::convert_local_fn_to_import", "V6_api.kf.convert_local_fn_to_import.*",
                         "V6_api.fn:Module::add_import", "V6_api.ModuleImports.add.*", "V6_api.fn:ModuleImports::add", "V6_api.fn:Functions::set_imported_fn_name",
                         "V2_reindex.lemma.import_order_survives_reorganisation", "V2_reindex.fn:lemma_import_order_preserved", "V2_reindex.fn:lemma_origin_monotone_on_imports"]
                        + V2_GENERIC + v2_inst("Function", "Functions") + ["V3_remap.update_fn_instr.*", "V3_remap.fn:update_fn_instr", "V3_remap.refers_to_func.*"],
